@@ -122,10 +122,16 @@ Proof.
   pose proof (fi_nofail _ Hr _ _ Ht) as Hnf.
   destruct (f_pc th) eqn:Epc; try discriminate; try congruence;
     try (eapply Hholder; eauto; rewrite Epc; reflexivity).
+  2: { (* the failed attempt only has to close its descriptor *)
+       exists t. unfold fenabled, C11Base.enabled, C11Base.step. unfold fthr_at in Ht. rewrite Ht.
+       unfold ftstep. rewrite Epc. reflexivity. }
   (* t is blocked in flock(): some descriptor holds an incompatible lock, and its thread can move *)
+  destruct (f_fail th) eqn:Efl.
+  { exists t. unfold fenabled, C11Base.enabled, C11Base.step. unfold fthr_at in Ht. rewrite Ht.
+    unfold ftstep. rewrite Epc, Efl. reflexivity. }
   destruct (kcompat (f_mode th) (glob s)) eqn:Ek.
   - exists t. unfold fenabled, C11Base.enabled, C11Base.step. unfold fthr_at in Ht. rewrite Ht.
-    unfold ftstep. rewrite Epc, Ek. reflexivity.
+    unfold ftstep. rewrite Epc, Efl, Ek. reflexivity.
   - pose proof (fi_ksh _ Hr) as KS. pose proof (fi_kex _ Hr) as KE.
     assert (exists m, (count (fheld m) (thr s) > 0)%nat) as (m & Hc).
     { unfold kcompat in Ek. destruct (f_mode th).
@@ -185,7 +191,7 @@ Qed.
 Lemma facquire_local : forall t g th, (f_proc th < List.length (procs g))%nat ->
   p_mutex (proc_of g (f_proc th)) = None ->
   (forall g1, procs g1 = procs g -> guard_fails (f_mode th) (proc_of g1 (f_proc th)) = false) ->
-  ((f_pc th = F_Flock /\ kcompat (f_mode th) g = true) \/ f_pc th = F_Lock1) ->
+  ((f_pc th = F_Flock /\ f_fail th = false /\ kcompat (f_mode th) g = true) \/ f_pc th = F_Lock1) ->
   exists k g', (k <= 4)%nat /\ flrun t k g th = Some (g', fset_pc th F_Unlock1).
 Proof.
   intros t g th Hp Hm Hg Hc.
@@ -198,16 +204,16 @@ Proof.
     assert (guard_fails (f_mode th) (set_pmutex (proc_of g (f_proc th)) (Some t)) = false) as ->.
     { specialize (Hg g eq_refl). unfold guard_fails in *. simpl. exact Hg. }
     unfold ftstep. simpl. eexists. reflexivity. }
-  destruct Hc as [[Hpc Hk]|Hpc].
+  destruct Hc as [(Hpc & Hfl & Hk)|Hpc].
   - destruct (Hl1 (kgrant (f_mode th) g)) as (g' & H); [apply procs_kgrant|].
-    exists 4%nat, g'. split; [lia|]. unfold flrun in *. simpl. unfold ftstep at 1. rewrite Hpc, Hk. exact H.
+    exists 4%nat, g'. split; [lia|]. unfold flrun in *. simpl. unfold ftstep at 1. rewrite Hpc, Hfl, Hk. exact H.
   - destruct (Hl1 g eq_refl) as (g' & H). exists 3%nat, g'. split; [lia|].
     assert (fset_pc th F_Lock1 = th) as E by (destruct th; simpl in *; subst; reflexivity).
     rewrite E in H. exact H.
 Qed.
 
 Lemma file_eventually : forall s t th, freachable s -> fthr_at s t th ->
-  ((f_pc th = F_Flock /\ kcompat (f_mode th) (glob s) = true) \/ f_pc th = F_Lock1) ->
+  ((f_pc th = F_Flock /\ f_fail th = false /\ kcompat (f_mode th) (glob s) = true) \/ f_pc th = F_Lock1) ->
   p_mutex (proc_of (glob s) (f_proc th)) = None ->
   exists k s', (k <= 4)%nat /\ frun_n t k s = Some s' /\ fthr_at s' t (fset_pc th F_Unlock1).
 Proof.
@@ -222,7 +228,7 @@ Proof.
     pose proof (count_le _ (fholds_in p R) (fheld R) (thr s) (fholds_in_fheld p R)) as LR.
     assert (forall m, fholds_in p m th = false) as Hnh.
     { intros; unfold fholds_in, fholds. destruct Hc as [[E _]|E]; rewrite E; simpl; apply andb_false_r. }
-    destruct Hc as [[Hpc Hk]|Hpc].
+    destruct Hc as [(Hpc & _ & Hk)|Hpc].
     - unfold kcompat in Hk. unfold guard_fails. destruct (f_mode th).
       + apply Nat.eqb_eq in Hk. destruct (p_writer (proc_of (glob s) p)); auto. lia.
       + apply andb_true_iff in Hk. destruct Hk as [K1 K2]. apply Nat.eqb_eq in K1. apply Nat.eqb_eq in K2.
@@ -252,7 +258,7 @@ Proof.
   - set (ps := proc_of g (f_proc th)).
     set (g3 := set_proc (set_proc g (f_proc th) (set_pmutex ps (Some t))) (f_proc th)
                         (set_pmutex (set_pmutex ps (Some t)) None)).
-    destruct (IH t g3 (FTh F_InCS (f_proc th) (f_mode th) q (f_todo th) (flocked_val (set_pmutex ps (Some t)))))
+    destruct (IH t g3 (FTh F_InCS (f_proc th) (f_mode th) q (f_fail th) (f_todo th) (flocked_val (set_pmutex ps (Some t)))))
       as (k & g' & th' & Hk & Hl & Hf); auto.
     { unfold g3. rewrite !procs_set_length. exact Hp. }
     { unfold g3. simpl. rewrite proc_of_set_eq by (rewrite procs_set_length; auto). reflexivity. }
